@@ -7,7 +7,8 @@ Request: `{"op":"run","cls":C,"threads":[...],"sched":[tid,...] | null, "items":
 * `cls`: disposable | boolean | scheduled | composite | serial | mad | sad | sad_asis | refcount
 * `threads`: per thread its program — a call count (disposable, boolean, scheduled callers) or a list of ops
 * `sched`: thread index per atomic step; `null` = run the threads one after the other to completion
-* `items`: number of item ids whose dispose counters are reported; `init`, `falsy`, `workers` where relevant
+* `items`: number of item ids whose dispose counters are reported; `init`, `falsy`, `workers`, `raises` (disposable:
+  indices of the action invocations that raise) where relevant
 Response: `{"ev":[[tid, event, obs|null],...], "final":obs, "stutter":n}` — `obs` (observable state after the
 step) is attached to every `ret`/`raise` event; `stutter` counts scheduled steps that did nothing.
 -/
@@ -96,8 +97,8 @@ def optJ : Option Nat → Json
 
 /-! machines -/
 
-def mDisposable : Machine DSh DTh :=
-  { step := dStep, log := (·.log),
+def mDisposable (raises : List Nat) : Machine DSh DTh :=
+  { step := dStep (fun k => raises.contains k), log := (·.log),
     obs := fun s => Json.mkObj [("is_disposed", .bool s.isDisposed), ("actions", natJ s.actions)],
     done := fun _ p => p.1 == .idle && p.2 == 0 }
 
@@ -186,7 +187,9 @@ def handle (op : String) (j : Json) : Except String Json := do
       | _ => pure none
     let k := (j.getObjValAs? Nat "items").toOption.getD 0
     match cls with
-    | "disposable" => pure (go mDisposable (dInit (← natsOf j "threads")) sched)
+    | "disposable" =>
+      let rs := (natsOf j "raises").toOption.getD []
+      pure (go (mDisposable rs) (dInit (← natsOf j "threads")) sched)
     | "boolean" => pure (go mBoolean (bInit (← natsOf j "threads")) sched)
     | "scheduled" =>
       let w ← getNat j "workers"
